@@ -243,6 +243,42 @@ func (r *runner) checkDefaultsUntouched(before []string) {
 	}
 }
 
+// doLoadX: values that are NOT of the option's type (or a file of the wrong shape). The property
+// says nothing about the outcome; the loader must not panic. Not part of the load history.
+func (r *runner) doLoadX(o hx.Op) {
+	fl, ok1 := parsePairs(o.Str("fl"))
+	fi, ok2 := parsePairs(o.Str("fi"))
+	if !ok1 || !ok2 {
+		r.c.Emit("bad-op")
+		return
+	}
+	saved := DeepCopy(config.DefaultConfig)
+	defer restoreFrom(saved)
+	home := r.home()
+	defer os.RemoveAll(home)
+	_ = os.MkdirAll(filepath.Join(home, config.AppConfigDir), 0o755)
+	body := WriteYAML(fi, func(string) string { return o.Str("style") })
+	if raw := o.Bytes("raw"); len(raw) > 0 {
+		body = string(raw)
+	}
+	_ = os.WriteFile(filepath.Join(home, config.AppConfigDir, config.ConfigName), []byte(body), 0o644)
+	var args []string
+	for _, p := range fl {
+		args = append(args, "--"+p.K+"="+p.V)
+	}
+	_, err := RealLoad(home, args)
+	switch {
+	case err == nil:
+		r.c.Hit("loadx:accepted")
+	case strings.HasPrefix(err.Error(), "panic:"):
+		r.c.Report("C18/panic/load", err.Error())
+		r.c.Hit("loadx:panic")
+	default:
+		r.c.Hit("loadx:refused")
+	}
+	r.c.Emit("checked")
+}
+
 func (r *runner) doLoad(o hx.Op) {
 	fl, ok1 := parsePairs(o.Str("fl"))
 	fi, ok2 := parsePairs(o.Str("fi"))
@@ -655,6 +691,8 @@ func Run(c *hx.Ctx) {
 				c.Emit("ok")
 			case "load":
 				r.doLoad(o)
+			case "loadx":
+				r.doLoadX(o)
 			case "flagreach":
 				r.doFlagReach(o)
 			case "save":
